@@ -3,6 +3,7 @@ package c08
 import (
 	"fmt"
 	"strings"
+	"time"
 
 	"verifharness/hk"
 )
@@ -19,6 +20,32 @@ var fileSpecs = []fileSpec{
 	{"a.txt", "other content", "text/plain"},
 	{"d.png", "x", "image/png"},
 	{"long-name-of-a-file.txt", "0123456789", "text/plain"},
+	// the same contents under other names: several file blobs share one wholeRef
+	{"copy-of-a.txt", "hello world", "text/plain"},
+	{"hello.html", "hello world", "text/html"},
+	{"notes-2", "plain words", ""},
+}
+
+func ymd(y int, m time.Month, d int) int64 { return time.Date(y, m, d, 12, 0, 0, 0, time.UTC).Unix() }
+
+// SpecialTimes: times over the whole range the schema accepts (RFC 3339 years 1..9999), around the
+// places where narrower representations break: the ends of the int64 nanosecond range (1677-09-21
+// 00:12:43Z and 2262-04-11 23:47:16Z), times that wrap once (1386..1677, after 2262) or twice
+// (1215) when forced into it, the Unix epoch, the first and the last second.
+var SpecialTimes = []int64{
+	MinTime, ymd(1215, 6, 15), ymd(1386, 1, 1), ymd(1500, 7, 1), ymd(1623, 11, 8),
+	-9223372037, -9223372036, -9223372035, ymd(1700, 1, 1), ymd(1901, 12, 13), -1, 1,
+	9223372035, 9223372036, 9223372037, ymd(2300, 1, 1), ymd(5000, 1, 1), MaxTime,
+}
+
+func rfc3339(t int64) string { return time.Unix(t, 0).UTC().Format(time.RFC3339) }
+
+// anyTimeValue: mostly a recent time, sometimes one of the special ones
+func anyTimeValue(r *hk.Rand, recent int64) int64 {
+	if r.Chance(30) {
+		return SpecialTimes[r.Intn(len(SpecialTimes))]
+	}
+	return recent
 }
 
 var (
@@ -39,21 +66,21 @@ func GenWorld(r *hk.Rand, b *B, big bool) {
 		scale = 2
 	}
 	var files, dirs, dangling []string
-	nFiles := r.Intn(3*scale + 1)
-	used := map[int]bool{}
+	nFiles := r.Intn(4*scale + 1)
 	for i := 0; i < nFiles; i++ {
-		k := r.Intn(len(fileSpecs))
-		if used[k] {
-			continue
-		}
-		used[k] = true
-		fs := fileSpecs[k]
-		by := b.Bytes(fs.content)
+		fs := fileSpecs[r.Intn(len(fileSpecs))]
 		var mtime int64
 		if r.Chance(70) {
-			mtime = 1300000000 + int64(r.Intn(5))*1000
+			mtime = anyTimeValue(r, 1300000000+int64(r.Intn(5))*1000)
 		}
-		files = append(files, b.File(fs.name, by, mtime, fs.mime))
+		fref, whole := PlanFile(fs.name, fs.content, mtime)
+		if _, dup := b.MW.idx[fref]; dup {
+			continue
+		}
+		if _, ok := b.MW.bytesLen[whole]; !ok {
+			b.Bytes(fs.content)
+		}
+		files = append(files, b.File(fs.name, whole, mtime, fs.mime))
 	}
 	if r.Chance(30) {
 		dangling = append(dangling, fakeRef(r))
@@ -158,6 +185,17 @@ func GenWorld(r *hk.Rand, b *B, big bool) {
 		}
 	}
 	for _, pn := range pns {
+		if r.Chance(30) {
+			// a creation date of the permanode's own, anywhere in the range of RFC 3339
+			attr := "dateCreated"
+			if r.Chance(20) {
+				attr = r.Pick([]string{"datePublished", "startDate", "dateModified"})
+			}
+			date++
+			b.ClaimBy(r.Chance(10), pn, "set", attr, rfc3339(anyTimeValue(r, 1350000000+int64(r.Intn(9))*1000)), date)
+		}
+	}
+	for _, pn := range pns {
 		if r.Chance(35) {
 			Churn(r, b, pn, func(string) {})
 		}
@@ -185,31 +223,47 @@ func boolInt(b bool) int {
 // expectPermanodeTime: Corpus.PermanodeTime in the generated worlds (no date attributes): the time
 // of the file the last camliContent set-claim points to.
 func expectPermanodeTime(w *MWorld, pn string) int64 {
+	// pnTimeAttr: the first value of the attribute (of any signer) read as RFC 3339
+	attrTime := func(attr string) int64 {
+		if v := w.ValsAll(pn, attr, 0); len(v) > 0 && v[0] != "" {
+			if t, err := time.Parse(time.RFC3339, v[0]); err == nil {
+				return t.Unix()
+			}
+		}
+		return 0
+	}
+	for _, a := range []string{"paymentDueDate", "startDate", "dateCreated"} {
+		if t := attrTime(a); t != 0 {
+			return t
+		}
+	}
 	var cc string
-	var t int64
 	for _, c := range w.Claims {
 		if c.PN != pn || c.Attr != "camliContent" {
 			continue
 		}
 		switch c.Kind {
 		case "del":
-			cc, t = "", 0
+			cc = ""
 		case "set":
-			cc, t = "", 0
+			cc = ""
 			if isRef(c.Val) {
-				cc, t = c.Val, c.Date
+				cc = c.Val
 			}
 		}
 	}
-	if cc == "" {
-		return 0
+	if cc != "" {
+		if f, ok := w.file(cc); ok && f.Time != 0 {
+			return f.Time
+		}
 	}
-	if f, ok := w.file(cc); ok && f.Time != 0 {
-		return f.Time
+	for _, a := range []string{"datePublished", "dateModified"} {
+		if t := attrTime(a); t != 0 {
+			return t
+		}
 	}
 	// (corpus.go:1188 `if ok { return ccTime, true }` tests an `ok` that the pnTimeAttr calls above it
 	// have overwritten with false: the camliContent claim date is never used)
-	_ = t
 	return 0
 }
 
@@ -317,17 +371,28 @@ func (g *cgen) timeC(samples []int64) *TimeC {
 	if len(samples) > 0 {
 		t = samples[g.r.Intn(len(samples))]
 	}
+	if g.r.Chance(10) {
+		t = SpecialTimes[g.r.Intn(len(SpecialTimes))]
+	}
 	t += int64(g.r.Intn(3)) - 1
-	if t < 10 {
-		t = 10
+	clamp := func(x int64) int64 {
+		switch {
+		case x < MinTime:
+			return MinTime
+		case x > MaxTime:
+			return MaxTime
+		case x == 0:
+			return 1
+		}
+		return x
 	}
 	switch g.r.Intn(3) {
 	case 0:
-		return &TimeC{Before: t}
+		return &TimeC{Before: clamp(t)}
 	case 1:
-		return &TimeC{After: t}
+		return &TimeC{After: clamp(t)}
 	}
-	return &TimeC{After: t - int64(g.r.Intn(5)), Before: t + int64(g.r.Intn(5))}
+	return &TimeC{After: clamp(t - int64(g.r.Intn(5))), Before: clamp(t + int64(g.r.Intn(5)))}
 }
 
 func (g *cgen) prefix() string {
@@ -514,6 +579,9 @@ func (g *cgen) at() int64 {
 	}
 	if g.r.Chance(10) {
 		t = 1500000000 // after everything
+	}
+	if t == 0 || t < MinTime {
+		t = MinTime
 	}
 	return t
 }
@@ -934,7 +1002,7 @@ func GenArrivals(r *hk.Rand, b *B, a *Arrivals, hit func(string)) {
 				continue
 			}
 			fs := free[r.Intn(len(free))]
-			mtime := int64(1300000000 + 500*r.Intn(12) + 1)
+			mtime := anyTimeValue(r, int64(1300000000+500*r.Intn(12)+1))
 			ref, _ := PlanFile(fs.name, fs.content, mtime)
 			b.Claim(pns[r.Intn(len(pns))], "set", "camliContent", ref, b.LastDate+1)
 			a.pending = append(a.pending, pendingFile{fs, mtime})
@@ -992,7 +1060,11 @@ func Churn(r *hk.Rand, b *B, pn string, hit func(string)) {
 		if late {
 			date = 0
 			for try := 0; try < 8 && date == 0; try++ {
-				if d := 1399999000 + int64(r.Intn(int(b.LastDate-1399999000))); !used[d] {
+				d := 1399999000 + int64(r.Intn(int(b.LastDate-1399999000)))
+				if r.Chance(20) {
+					d = SpecialTimes[r.Intn(len(SpecialTimes))] // a claim dated centuries ago
+				}
+				if !used[d] && d < b.LastDate {
 					date = d
 				}
 			}
